@@ -46,6 +46,7 @@ var basePreamble = []string{
 	"(declare-fun streq ((Array Int Int) Int Int (Array Int Int) Int Int) Bool)",
 	"(declare-fun ifacekey (Int Int) Int)",
 	"(declare-fun identityboxed (Int) Bool)",
+	"(declare-fun strlt ((Array Int Int) Int Int (Array Int Int) Int Int) Bool)",
 	"(define-fun emptybase () (Array Int Int) ((as const (Array Int Int)) 0))",
 }
 
@@ -549,11 +550,17 @@ func (e *Engine) verifyShard(fn *ssa.Function, fc *FuncContract, opts VerifyOpts
 			x.inputNames = append(x.inputNames, p.Name()+suffix)
 		}
 	}
+	x.topFn = fn
 	for i, fv := range fn.FreeVars {
 		// free variables of a closure verified stand-alone: arbitrary cells
 		c := &Cell{Name: fv.Name(), Frame: fr.id}
 		elem := fv.Type().(*types.Pointer).Elem()
+		if x.freeCellTypes == nil {
+			x.freeCellTypes = map[*Cell]types.Type{}
+		}
+		x.freeCellTypes[c] = elem
 		val := x.mkFresh(elem, "free_"+fv.Name())
+		x.assumeAllocated(st, val) // what a captured variable refers to was allocated before the call
 		st.cellv[c] = val
 		fr.binds = append(fr.binds, Ptr{Cell: c, Elem: elem})
 		// (not in entryVars: a captured variable denotes its CURRENT value in postconditions; old(...) reads the entry state)
